@@ -674,7 +674,7 @@ def cell_table_cmp(pdb, node, atom_name, ty, env=None):
 
 def ub_node(bv, x, depth=0):
     """an upper bound of an unsigned scalar node, from known-zero bits and the shape of the arithmetic (None = unknown)"""
-    if depth > 40:
+    if depth > 400:
         return None
     k = x[0]
     ty = ty_of(x)
@@ -695,6 +695,8 @@ def ub_node(bv, x, depth=0):
         if a is not None:
             return a
     if k == 'cast':
+        if ty_of(x[1]) == 'bool':
+            return 1
         a = ub_node(bv, x[1], depth + 1)
         if a is not None:
             return min(a, tmax)
